@@ -54,7 +54,7 @@ ObjAt(P, e) == Eval(P.obj, e)[1]
 FConst(k) == [m |-> <<>>, k |-> k]
 FVar(key) == [m |-> << <<1, key>> >>, k |-> 0]
 FAdd(f, g) == [m |-> f.m \o g.m, k |-> f.k + g.k]
-FScale(s, f) == [m |-> [i \in DOMAIN f.m |-> <<s * f.m[i][1], f.m[i][2]>>], k |-> s * f.k]
+FScale(s, f) == [m |-> SubSeq([i \in DOMAIN f.m |-> <<s * f.m[i][1], f.m[i][2]>>], 1, Len(f.m)), k |-> s * f.k]
 FSub(f, g) == FAdd(f, FScale(-1, g))
 RECURSIVE FSum(_)
 FSum(fs) == IF fs = <<>> THEN FConst(0) ELSE FAdd(Head(fs), FSum(Tail(fs)))
@@ -65,9 +65,13 @@ CoefOf(f, key) == SumSeq([i \in DOMAIN f.m |-> IF f.m[i][2] = key THEN f.m[i][1]
 
 VarIdx(v, vo) == CHOOSE i \in DOMAIN vo : vo[i] = v
 
+\* TLC keeps a function constructor [i \in S |-> e] as an unevaluated closure and re-evaluates e at every application; sequences that are
+\* indexed many times are turned into explicit tuples once
+Eager(q) == SubSeq(q, 1, Len(q))
 \* Rep(t, d, P): rows (affine forms, one per component), aux (forms f meaning f <= 0), nodes (the labelled nodes met, with direction)
-RECURSIVE Rep(_, _, _)
-Rep(t, d, P) ==
+RECURSIVE Rep(_, _, _), RepRaw(_, _, _)
+Rep(t, d, P) == LET r == RepRaw(t, d, P) IN [rows |-> Eager(r.rows), aux |-> Eager(r.aux), nodes |-> Eager(r.nodes)]
+RepRaw(t, d, P) ==
     LET none == [rows |-> <<>>, aux |-> <<>>, nodes |-> <<>>]
         TVar(i) == FVar(<<1, t.nid, i>>)
         Node == <<[id |-> t.nid, t |-> t, d |-> d]>>
@@ -115,13 +119,14 @@ Eqs(P) == {i \in DOMAIN P.cons : P.cons[i].rel = "=="}
 NodeLen(nd, P) == IF nd.t.op \in {"max1", "min1"} THEN 1 ELSE TLen(nd.t, P.sz)
 \* everything derived from the representation of the objective and of every constraint, computed once per problem
 Ctx(P) ==
-    LET ro == Rep(P.obj, 1, P)
-        rc == [i \in DOMAIN P.cons |-> Rep(CFun(P.cons[i]), 1, P)]
+    LET ER(r) == [rows |-> Eager(r.rows), aux |-> Eager(r.aux), nodes |-> Eager(r.nodes)]
+        ro == ER(Rep(P.obj, 1, P))
+        rc == Eager([i \in DOMAIN P.cons |-> ER(Rep(CFun(P.cons[i]), 1, P))])
         nodes == ro.nodes \o Concat([i \in DOMAIN P.cons |-> rc[i].nodes])
         keys == Concat([v \in DOMAIN P.vo |-> [i \in 1..P.sz[P.vo[v]] |-> <<0, v, i>>]]) \o
                 Concat([q \in DOMAIN nodes |-> [i \in 1..NodeLen(nodes[q], P) |-> <<1, nodes[q].id, i>>]])
         auxs == ro.aux \o Concat([i \in DOMAIN P.cons |-> rc[i].aux])
-    IN  [ro |-> ro, rc |-> rc, nodes |-> nodes, keys |-> keys, auxs |-> auxs]
+    IN  [ro |-> ro, rc |-> rc, nodes |-> Eager(nodes), keys |-> Eager(keys), auxs |-> Eager(auxs)]
 UniqueIds(X) == \A p, q \in DOMAIN X.nodes : p # q => X.nodes[p].id # X.nodes[q].id
 CoRow(f, keys) == [j \in DOMAIN keys |-> CoefOf(f, keys[j])]
 
